@@ -5,7 +5,7 @@ use crate::alloc;
 use crate::analysis::{analyze_output, GETS};
 use crate::case::{self, call_gen_guarded as call_gen, Entropy, GenCase, Profile, RateMode, SizeMode};
 use crate::refpvm::optable as t;
-use crate::runner::{run_prop, Ctx, Fail, Outcome, Stats, Violation, THREADS};
+use crate::runner::{run_enum, run_prop, Ctx, Fail, Outcome, Stats, Violation, THREADS};
 use crate::util;
 use proptest::prelude::*;
 use serde::{Deserialize, Serialize};
@@ -24,6 +24,8 @@ pub enum Op {
     Reset,
     /// the caller moves the public `output` buffer out of the generator (std::mem::take)
     TakeOutput,
+    /// the caller re-configures the opcode range through the public fields `min_opcodes` / `max_opcodes`
+    SetRange(usize, usize),
 }
 
 #[derive(Clone, Debug, Serialize, Deserialize)]
@@ -43,6 +45,7 @@ pub fn seq_strategy(p: &Profile, maxlen: usize) -> BoxedStrategy<SeqCase> {
         4 => case::bytes_entropy().prop_map(Op::FromBytes),
         2 => Just(Op::Reset),
         1 => Just(Op::TakeOutput),
+        1 => prop_oneof![(0usize..40, 0usize..40), Just((60usize, 300usize)), (300usize..900).prop_map(|a| (a, a + 50))].prop_map(|(a, b)| Op::SetRange(a, b)),
     ];
     let last = prop_oneof![1 => Just(Op::Generate), 1 => case::bytes_entropy().prop_map(Op::FromBytes)];
     (case::gencase(p), any::<u64>(), proptest::collection::vec(op, 0..maxlen), last, proptest::bool::weighted(0.25))
@@ -61,7 +64,7 @@ fn entropy_of(base: &GenCase, op: &Op) -> Option<Entropy> {
     match op {
         Op::Generate => Some(base.entropy.clone()),
         Op::FromBytes(b) => Some(Entropy::Bytes(b.clone())),
-        Op::Reset | Op::TakeOutput => None,
+        Op::Reset | Op::TakeOutput | Op::SetRange(..) => None,
     }
 }
 
@@ -86,13 +89,23 @@ pub fn check_c08(ctx: &Ctx, sc: &SeqCase, st: &mut Stats) -> Result<(), Fail> {
     let mut calls = 0usize;
     let mut last_digest = 0u64;
     let mut last_unseeded: Option<Vec<u8>> = None;
+    // the opcode range currently configured through the public fields (None: as built)
+    let mut range: Option<(usize, usize)> = None;
     for (i, op) in sc.ops.iter().enumerate() {
         let Some(e) = entropy_of(&sc.base, op) else {
-            if matches!(op, Op::TakeOutput) {
-                let _ = std::mem::take(&mut g.output);
-            } else {
-                g.reset();
-                calls_since_reset = 0;
+            match op {
+                Op::TakeOutput => {
+                    let _ = std::mem::take(&mut g.output);
+                }
+                Op::SetRange(a, b) => {
+                    g.min_opcodes = *a;
+                    g.max_opcodes = *b;
+                    range = Some((*a, *b));
+                }
+                _ => {
+                    g.reset();
+                    calls_since_reset = 0;
+                }
             }
             continue;
         };
@@ -103,7 +116,7 @@ pub fn check_c08(ctx: &Ctx, sc: &SeqCase, st: &mut Stats) -> Result<(), Fail> {
             // outputs of at least 24 body opcodes each coincide with probability < 1e-20
             calls_since_reset += 1;
             if let Ok(o) = &got {
-                if sc.base.min_opcodes >= 24 {
+                if range.map_or(sc.base.min_opcodes, |r| r.0) >= 24 {
                     if let Some(prev) = &last_unseeded {
                         if prev == o {
                             return ctx.fail(
@@ -123,6 +136,10 @@ pub fn check_c08(ctx: &Ctx, sc: &SeqCase, st: &mut Stats) -> Result<(), Fail> {
             continue;
         }
         let mut fresh = seq_build(sc);
+        if let Some((a, b)) = range {
+            fresh.min_opcodes = a;
+            fresh.max_opcodes = b;
+        }
         let want = call_gen(&mut fresh, &e);
         calls += 1;
         calls_since_reset += 1;
@@ -170,7 +187,7 @@ pub fn check_c08(ctx: &Ctx, sc: &SeqCase, st: &mut Stats) -> Result<(), Fail> {
         st.label("has >= 2 generation calls without reset in between");
         st.nontrivial(last_digest ^ util::digest_str(&format!("{:?}", sc.ops.len())));
         st.sample(|| {
-            json!({"config": sc.base.brief(), "ops": sc.ops.iter().map(|o| match o { Op::Generate => "generate".to_string(), Op::Reset => "reset".to_string(), Op::TakeOutput => "take(output)".to_string(), Op::FromBytes(b) => format!("from_bytes[{}]", b.len()) }).collect::<Vec<_>>()})
+            json!({"config": sc.base.brief(), "ops": sc.ops.iter().map(|o| match o { Op::Generate => "generate".to_string(), Op::Reset => "reset".to_string(), Op::TakeOutput => "take(output)".to_string(), Op::SetRange(a, b) => format!("set_range({},{})", a, b), Op::FromBytes(b) => format!("from_bytes[{}]", b.len()) }).collect::<Vec<_>>()})
         });
     }
     if sc.ops.iter().any(|o| matches!(o, Op::Reset)) {
@@ -179,18 +196,95 @@ pub fn check_c08(ctx: &Ctx, sc: &SeqCase, st: &mut Stats) -> Result<(), Fail> {
     Ok(())
 }
 
+fn big_strategy(small: &Profile) -> BoxedStrategy<SeqCase> {
+    (case::gencase(small), any::<u64>(), 9_000usize..16_000, proptest::collection::vec(case::bytes_entropy(), 1..4), any::<bool>(), any::<bool>(), 0usize..120)
+        .prop_map(|(mut base, seed, n, later, first_seeded, with_reset, small_n)| {
+            base.entropy = Entropy::Seed(seed);
+            base.prior_calls = 0;
+            let mut ops = vec![Op::SetRange(n, n), if first_seeded { Op::Generate } else { Op::FromBytes(vec![7; 64]) }, Op::SetRange(small_n, small_n + 30)];
+            if with_reset {
+                ops.push(Op::Reset);
+            }
+            for b in later {
+                ops.push(Op::FromBytes(b));
+                ops.push(Op::Generate);
+            }
+            SeqCase { base, ops, unseeded: false }
+        })
+        .boxed()
+}
+
+fn long_strategy(small: &Profile) -> BoxedStrategy<SeqCase> {
+    (case::gencase(small), any::<u64>(), proptest::collection::vec(prop_oneof![6 => case::bytes_entropy().prop_map(Op::FromBytes), 3 => Just(Op::Generate), 1 => Just(Op::Reset)], 260..520), 0usize..12)
+        .prop_map(|(mut base, seed, ops, n)| {
+            base.entropy = Entropy::Seed(seed);
+            base.prior_calls = 0;
+            base.min_opcodes = n;
+            base.max_opcodes = n + 8;
+            SeqCase { base, ops, unseeded: false }
+        })
+        .boxed()
+}
+
 pub fn run_c08(ctx: &Ctx) -> Outcome {
     let mut out = Outcome::new(
         "Operation sequences of length 1..8 over {generate, generate_from_arbitrary(bytes), reset} on one generator (the whole sequence is one \
          proptest value and shrinks as one), for all protocols and configurations incl. mutators / unsafe / opt-in flags; the generator has a \
          PRNG seed. Model-based oracle: the result of every generation call equals the result of the same call on a fresh generator with equal \
-         configuration. Non-trivial = >= 2 generation calls without a reset in between.",
+         configuration. Also re-configuration of the opcode range through the public fields between calls; (b) histories that start with one \
+         pickle of 9 000..16 000 opcodes; (c) long-lived generators: 260..520 calls, and once per protocol 70 000 calls (300 000 thorough) of tiny \
+         pickles, every call compared. Non-trivial = >= 2 generation calls without a reset in between.",
     );
     let mut p = Profile::full();
     p.rate = RateMode::InRange;
     p.size = SizeMode::Mixed;
     let r = run_prop(ctx, 1, ctx.n(40_000, 1_000_000), || seq_strategy(&p, 8), |c: &SeqCase, st: &mut Stats| check_c08(ctx, c, st));
     out.absorb(r);
+    if out.failed() {
+        return out;
+    }
+    // (b) after a very large pickle: one call of 9 000..16 000 opcodes (its output buffer grows past every
+    // "small buffer" threshold), then the range is set back and ordinary calls follow
+    let mut small = Profile::full();
+    small.rate = RateMode::InRange;
+    small.size = SizeMode::Tiny;
+    let r = run_prop(ctx, 2, ctx.n(96, 1_500), || big_strategy(&small), |c: &SeqCase, st: &mut Stats| {
+        st.label("(b) history with one very large pickle first");
+        check_c08(ctx, c, st)
+    });
+    out.absorb(r);
+    if out.failed() {
+        return out;
+    }
+    // (c) long-lived generators: hundreds (and, once per protocol, tens of thousands) of calls on one
+    // generator, tiny pickles; every call compared with a fresh generator
+    let r = run_prop(ctx, 3, ctx.n(160, 3_000), || long_strategy(&small), |c: &SeqCase, st: &mut Stats| {
+        st.label("(c) history of 260..520 calls on one generator");
+        check_c08(ctx, c, st)
+    });
+    out.absorb(r);
+    if out.failed() {
+        return out;
+    }
+    let n_calls = ctx.n(70_000, 300_000) as usize;
+    let items: Vec<SeqCase> = (0u8..=5)
+        .map(|p| {
+            let mut base = GenCase::default_for(p, ctx.seed ^ 0x10c0 ^ p as u64);
+            base.min_opcodes = 1;
+            base.max_opcodes = 6;
+            let ops = (0..n_calls).map(|i| if i % 3 == 0 { Op::Generate } else { Op::FromBytes(vec![(i % 251) as u8, (i / 251 % 256) as u8, (i >> 16) as u8]) }).collect();
+            SeqCase { base, ops, unseeded: false }
+        })
+        .collect();
+    let (st, found) = run_enum(items, |c, st| {
+        st.label("(c) history of tens of thousands of calls on one generator");
+        check_c08(ctx, c, st)
+    });
+    out.stats.merge(st);
+    if let Some((c, f)) = found {
+        // keep the replay small: the failing call index is in the message
+        out.violation = Some(Violation { fail: f, case: serde_json::to_value(&c).unwrap() });
+    }
     out
 }
 
@@ -217,6 +311,12 @@ fn c14_measure(sc: &SeqCase) -> (i64, i64, bool, bool, u64) {
             match entropy_of(&sc.base, op) {
                 None if matches!(op, Op::TakeOutput) => {
                     let _ = std::mem::take(&mut g.output);
+                }
+                None if matches!(op, Op::SetRange(..)) => {
+                    if let Op::SetRange(a, b) = op {
+                        g.min_opcodes = *a;
+                        g.max_opcodes = *b;
+                    }
                 }
                 None => g.reset(),
                 Some(e) => match call_gen(&mut g, &e) {
